@@ -37,6 +37,8 @@ def job_for(decl, jid, exports, repeats):
 def observed_binds(result, r):
     """projection: (import outcome, env dump) of repeat r -> outcome kind, list of {name, origin}"""
     res = result["results"]
+    if result.get("skipped"):
+        return ("skipped", None)
     if len(res) < 4 * (r + 1):
         return ("incomplete", res[-1] if res else None)
     imp, env = res[4 * r + 2], res[4 * r + 3]
@@ -126,6 +128,8 @@ def run(ctx):
             for rep in range(repeats):
                 st, obs = observed_binds(res, rep)
                 ctx.count(evaluations=1, validated=1)
+                if st == "skipped":
+                    break
                 if st != "ok" or obs != expected:
                     ctx.violation({"kind": "vector", "value": render_decl(v["decl"])},
                                   "%s: expected bindings %s, observed %s (%s), process %d interpreter %d" %
@@ -158,9 +162,13 @@ def run(ctx):
     jobs = [job_for(d, i, ex4, 1) for i, d in enumerate(decls)]
     results = run_jobs(jobs, ctx.dir, tag="validate", timeout=1200)
     tpath = os.path.join(ctx.dir, "trace.ndjson")
+    alld, decls = decls, []
     with open(tpath, "w") as f:
-        for d, res in zip(decls, results):
+        for d, res in zip(alld, results):
             st, obs = observed_binds(res, 0)
+            if st == "skipped":
+                continue
+            decls.append(d)
             if st != "ok":
                 obs = [{"name": "!" + st, "origin": "?"}]
             f.write(json.dumps({"ev": "import", "decl": d, "obs": obs}) + "\n")
